@@ -59,7 +59,8 @@ class Check(CheckBase):
             r = random.Random(f'C09/{self.seed}/s/{i}')
             cases.append({
                 'kind': 'roundtrip', 'stress': True, 'seed': r.randrange(1 << 30), 'N': [1, 1, 1, 2][i % 4],
-                'victim': ['vf-op', 'vf-op', 'vf-op', 'chunk-producer', 'chunk-loader', None][(i // 4) % 6],
+                'victim': ['loop', 'loop', 'pool0', 'pool1', 'pool2', 'pool3', '!loop', None][(i // 4) % 8],
+                'slow': ['@pool0', '@pool1', '@pool0', None][(i // 2) % 4],
                 'flavour': 'async' if i % 2 else 'sync', 'shape': 'tiny', 'p': 0.02,
                 'settings': gen.gen_settings(r, chunker=r.choice([(8, 64), (4, 64), (12, 12)])),
             })
@@ -82,10 +83,14 @@ class Check(CheckBase):
         fp = len([k for k in agg['classes'] if k.startswith('order:')])
         if fp < (100 if q else 2000):
             unmet.append(f'distinct completion-order fingerprints {fp} below floor')
-        from ..sched import EXPECTED_CLOSURES
-        for name in EXPECTED_CLOSURES:
-            if c.get(f'events_{name}', 0) == 0:
-                unmet.append(f'target closure {name} never observed')
+        # structural, not by name: the event loop, the executor workers and the producer thread must all have been watched
+        for role in ('loop', 'other'):
+            if c.get(f'events_in_{role}_threads', 0) < 1000:
+                unmet.append(f'too few monitored events in {role} threads')
+        if c.get('max_thread_groups_in_one_run', 0) < 3:
+            unmet.append('never saw the event loop and two further groups of threads in one run')
+        if c.get('max_distinct_functions_in_one_run', 0) < 8:
+            unmet.append('too few distinct functions of the repository module observed in one run')
         if c.get('yields_injected', 0) < 1000:
             unmet.append('too few yields injected')
         if c.get('sync_point_events', 0) < 1000:
@@ -202,7 +207,7 @@ class Check(CheckBase):
         be = membackend.make_backend(store, flavour)
         if case.get('stress'):
             pert = sched.Perturber(case['seed'], p=case['p'], sync_p=0.8, sync_sleep=0.02,
-                                   slow={'_stream_files': (0.3, 0.02)}, victim=case.get('victim'))
+                                   slow={case['slow']: (0.3, 0.02)} if case.get('slow') else None, victim=case.get('victim'))
             store.latency = None
         else:
             pert = sched.Perturber(case['seed'], p=case['p'], sync_p=0.3, sync_sleep=0.001)
@@ -386,9 +391,12 @@ class Check(CheckBase):
             pert.uninstall()
         counters['events'] = pert.events
         counters['yields_injected'] = pert.yields
-        for name, n in pert.per_code.items():
-            if name in sched.EXPECTED_CLOSURES or name in ('_acquire_slot', '_acquire_slot_threadsafe', '_write_file_part'):
-                counters[f'events_{name}'] = n
+        counters['events_in_loop_threads'] = pert.per_role.get('loop', 0)
+        counters['events_in_other_threads'] = sum(n for role, n in pert.per_role.items() if role != 'loop')
+        counters['max_thread_groups_in_one_run'] = len(pert.per_role)
+        counters['max_distinct_functions_in_one_run'] = len(pert.codes_hit)
+        for name, n in sorted(pert.per_code.items(), key=lambda kv: -kv[1])[:12]:      # informational
+            counters[f'events_{name}'] = n
         counters[f'max_in_flight_N{N}'] = store.max_in_flight
         classes.add('order:' + hashlib.sha1(json.dumps(store.completion_order).encode()).hexdigest()[:12])
         classes.add('ilv:' + hashlib.sha1(json.dumps(pert.signature).encode()).hexdigest()[:12])
